@@ -198,6 +198,21 @@ Proof.
 Qed.
 Print Assumptions C17_fractional_periods.
 
+(* Which tariff prices a simulation in analysis.energy_cost / demand_charge: the tariff passed explicitly wins over
+   the simulator's signals["tariff"], which is used only when none is passed; with neither, ValueError. *)
+Theorem C17_cost_tariff_precedence : forall signal explicit start period V cols,
+  (forall TS, explicit = Some TS ->
+     energy_cost_sim signal explicit start period V cols = energy_cost_q TS start period V cols /\
+     demand_charge_sim signal explicit start V cols = demand_charge TS start V cols) /\
+  (forall TS, explicit = None -> signal = Some TS ->
+     energy_cost_sim signal explicit start period V cols = energy_cost_q TS start period V cols /\
+     demand_charge_sim signal explicit start V cols = demand_charge TS start V cols) /\
+  (explicit = None -> signal = None ->
+     energy_cost_sim signal explicit start period V cols = Err "ValueError:nopricing" /\
+     demand_charge_sim signal explicit start V cols = Err "ValueError:nopricing").
+Proof. exact pricing_precedence. Qed.
+Print Assumptions C17_cost_tariff_precedence.
+
 (* ---- the hypotheses are satisfiable by concrete, non-trivial instances ---- *)
 (* PG&E A-10, Tuesday 2019-01-15 09:00:00 (a winter weekday — the date on which the file used to be
    ambiguous): one schedule, rate 0.1477 $/kWh, demand rate 11.66 $/kW *)
